@@ -110,7 +110,11 @@ impl Filter for BasicFilter {
 
             // get relative frequency difference
             let mut freq_diff = interval_local / interval_master;
-            if (freq_diff - 1.0).abs() > self.freq_confidence {
+            if !freq_diff.is_finite() {
+                // No time has passed for the master between the two
+                // measurements, so they carry no frequency information.
+                freq_diff = 1.0;
+            } else if (freq_diff - 1.0).abs() > self.freq_confidence {
                 freq_diff = freq_diff.clamp(1.0 - self.freq_confidence, 1.0 + self.freq_confidence);
                 self.freq_confidence *= 2.0;
             } else {
